@@ -22,7 +22,7 @@ CHECKS = {
   engine="e1_txn",
   technique="deterministic simulation of the rewrite scheduler: seeded synthetic rule scripts (yield order, transaction/group assignment) + injected faults (unparsable replacements, duplicates, self-overlaps, ignored targets) against the real processing.fix/chain, judged by a relational reference model; ddmin-minimised replay files",
   text="Seeded search (not exhaustive) over rewrite sets, transaction/group assignments, yield orders and fault sequences driven through the real scheduler, rewriter and rollback; every run is judged by an existential relational model of the statement (atomicity, no overlap, dropped-only-if with three-valued precedence, rollback justification, frame). Exploration is the right level: the quantifier is over unbounded finite rewrite sets and schedules, and the scheduler is the one component of pyrefact with transaction semantics, precedence and rollback.",
-  note="Rules are synthetic (recorded yield scripts); markers/tokens are identifiers; whitespace-only replacements excluded; precedence between default-numbered transactions is treated as unspecified (any order that explains the drops is accepted). One known finding (K1, insertion anchored in front of a removed indented line) is listed in KNOWN_FINDINGS.txt.",
+  note="Rules are synthetic (recorded yield scripts); markers/tokens are identifiers; whitespace-only replacements excluded; precedence between default-numbered transactions is treated as unspecified (any order that explains the drops is accepted). K1 (insertion anchored in front of a removed indented line) was repaired in /repo; a narrow rest (next line ignored and equally indented) is listed in KNOWN_FINDINGS.txt.",
   ref="DESIGN.md 4 (C10), 2.2 E1"),
  "C05": dict(
   engine="e2_history",
@@ -51,8 +51,8 @@ CHECKS = {
  "C20": dict(
   engine="e5_optout",
   technique="deterministic simulation + fault injection across the three places an opt-out must win: the rewrite scheduler under seeded conflicting / invalid transactions (E1), the file entry point under the simulated worker pool with file-system event monitor (E3: zero write events for skip_file files), the library / stdin entry points and the direct editing back-end under seeded edits (E5, stdin/stdout recording streams)",
-  text="skip_file: byte-identical through format_code (drawn options), echoed by the stdin mode, and never opened for writing by any worker, pass or schedule of the simulated CLI. ignore: a transaction touching an ignored line is dropped whole and every ignored physical line is verbatim after any scheduler pass (incl. rollback, re-indentation, pass insertion); through the direct back-end and end to end the clause is sampled and currently shows two known findings (removal back-end and renaming back-end have no ignore test), attributed by call site so that any other violation is still reported.",
-  note="stdin mode: the newline print() appends is framing. End-to-end lines are compared modulo trailing white space (trimming is whole-file layout normalisation). Known findings K2/K3 in KNOWN_FINDINGS.txt.",
+  text="skip_file: byte-identical through format_code (drawn options), echoed by the stdin mode, and never opened for writing by any worker, pass or schedule of the simulated CLI. ignore: a transaction touching an ignored line is dropped whole and every ignored physical line is verbatim after any scheduler pass (incl. rollback, re-indentation, pass insertion); through the direct back-end and end to end the clause is sampled; the removal back-end's missing ignore test (former K2) was repaired in /repo, two findings stay listed (K2b: remove_nodes disturbs the line after an emptied ;-body, K3: the renaming back-end has no ignore test), attributed by call site so that any other violation is still reported.",
+  note="stdin mode: the newline print() appends is framing. End-to-end lines are compared modulo trailing white space (trimming is whole-file layout normalisation). Known findings K2b/K3 in KNOWN_FINDINGS.txt.",
   ref="DESIGN.md 4 (C20)"),
  "C08": dict(
   engine="e3_pool",
@@ -63,7 +63,7 @@ CHECKS = {
  "C18": dict(
   engine="e3_pool",
   technique="deterministic simulation with the simulator owning the storage peer: generated package trees on a scratch disk in every layout of the statement, clients formatted by the real CLI under SimPool schedules (which worker, with which sys.modules / finder-cache history, handles which file; what it reads through tracing); oracle by executing original and final client text as two modules of one process and comparing object identity",
-  text="Import normalisation consults the disk and the interpreter's import state, so it is not a function of the source string; the check builds the package tree, runs the real CLI over the clients sequentially and under seeded multi-worker schedules, and compares by execution which objects every function returns and every module variable holds before and after (identity, same process). Exploration over layouts x import forms x schedules; one known finding (K4) listed.",
+  text="Import normalisation consults the disk and the interpreter's import state, so it is not a function of the source string; the check builds the package tree, runs the real CLI over the clients sequentially and under seeded multi-worker schedules, and compares by execution which objects every function returns and every module variable holds before and after (identity, same process). Exploration over layouts x import forms x schedules x process histories (an earlier run over another project tree, E2 two-trees); known findings K4 (star import dropped while the name is also imported inside a function) and K6 (shadowed imports reordered) listed.",
   note="Shape (i) only (static libraries); guessed imports of previously undefined names are not generated; definitions are matched by position because the tool may rename them outside safe mode.",
   ref="DESIGN.md 4 (C18)"),
 }
